@@ -29,6 +29,8 @@ func checkC19(r *Report, p *Program) {
 	r12_4(r, p)
 	// "a timeout is an error": the client always has one (shared with C12)
 	r12_10(r, p)
+	// every step of the transport has its error looked at, the right way round (shared with C12)
+	errorChecksMeanWhatTheySay(r, p, "R19.7", func(f *ssa.Function) bool { return strings.Contains(FK(f), "/pkg/hooks.") })
 }
 
 // webhookAbstractImpls returns the named module types implementing hooks.webhookAbstract.
